@@ -31,6 +31,30 @@ func (f *FileImage) zero(d *rawDescriptor) error {
 	return err
 }
 
+// resize sets the size of the backing storage of f to n bytes. An empty data object can be placed
+// beyond the end of the data written so far, in which case n is larger than the current size. As
+// not every ReadWriter can grow via Truncate, storage is extended by writing a zero byte instead.
+func (f *FileImage) resize(n int64) error {
+	size, err := f.rw.Seek(0, io.SeekEnd)
+	if err != nil {
+		return err
+	}
+
+	if n < size {
+		return f.rw.Truncate(n)
+	}
+
+	if n > size {
+		if _, err := f.rw.Seek(n-1, io.SeekStart); err != nil {
+			return err
+		}
+
+		_, err = f.rw.Write([]byte{0})
+	}
+
+	return err
+}
+
 // deleteOpts accumulates object deletion options.
 type deleteOpts struct {
 	zero    bool
@@ -149,7 +173,7 @@ func (f *FileImage) DeleteObjects(fn DescriptorSelectorFunc, opts ...DeleteOpt) 
 	if do.compact {
 		f.h.DataSize = f.calculatedDataSize()
 
-		if err := f.rw.Truncate(f.h.DataOffset + f.h.DataSize); err != nil {
+		if err := f.resize(f.h.DataOffset + f.h.DataSize); err != nil {
 			return fmt.Errorf("%w", err)
 		}
 	}
